@@ -205,6 +205,13 @@ static void discard(Type *ty) {
     println("  fstp %%st(0)");
 }
 
+// Line numbers past INT_MAX (`#line 2147483647`) wrap around and are
+// not valid in a .loc directive.
+static void emit_loc(Token *tok) {
+  if (tok->line_no > 0)
+    println("  .loc %d %d", tok->file->file_no, tok->line_no);
+}
+
 // Load a value from where %rax is pointing to.
 static void load(Type *ty) {
   switch (ty->kind) {
@@ -818,7 +825,7 @@ static void builtin_alloca(void) {
 
 // Generate code for a given node.
 static void gen_expr(Node *node) {
-  println("  .loc %d %d", node->tok->file->file_no, node->tok->line_no);
+  emit_loc(node->tok);
 
   switch (node->kind) {
   case ND_NULL_EXPR:
@@ -940,7 +947,7 @@ static void gen_expr(Node *node) {
       // The value of the last expression statement is the value of
       // the whole statement expression: it must not be discarded.
       if (!n->next && n->kind == ND_EXPR_STMT) {
-        println("  .loc %d %d", n->tok->file->file_no, n->tok->line_no);
+        emit_loc(n->tok);
         gen_expr(n->lhs);
       } else {
         gen_stmt(n);
@@ -1376,7 +1383,7 @@ static void verif_call_probe(void) {
 #endif
 
 static void gen_stmt(Node *node) {
-  println("  .loc %d %d", node->tok->file->file_no, node->tok->line_no);
+  emit_loc(node->tok);
 #ifdef CHIBICC_VERIF
   verif_stmt_probe(node);
 #endif
